@@ -4,3 +4,6 @@
 package node
 
 func verifGate(point string) {}
+
+// VerifGatePoint is a no-op unless built with -tags verif.
+func (d *Pegnetd) VerifGatePoint(point string) {}
